@@ -261,7 +261,10 @@ func newMuxPath(parentIPFilters *ipfilter.IPFilters, path *Path) (mp *MuxPath)
   ensures chain-is-parent-plus-own: chainLen(mp.ipFilterChain) == chainLen(parentIPFilters) + (path.IPFilter != nil ? 1 : 0) && (mp.ipFilterChain != nil ==> ipfilter.wfFilters(mp.ipFilterChain)) && (forall k int :: 0 <= k && k < chainLen(parentIPFilters) ==> mp.ipFilterChain.filters[k] == parentIPFilters.filters[k]) && (path.IPFilter != nil ==> specAt(mp.ipFilterChain, chainLen(mp.ipFilterChain) - 1) == path.IPFilter)
   ensures allocated: allocated(mp) && chainAllocated(mp.ipFilterChain) && (mp.ipFilter != nil ==> allocated(mp.ipFilter))
   ensures headers-compiled: forall k int :: 0 <= k && k < len(path.Headers) ==> path.Headers[k].headerRE != nil
+  ensures compiled-headers-stay-compiled: forall h *Header :: old(h.headerRE) != nil ==> h.headerRE != nil
+  ensures result-is-well-formed: wfPath(mp)
   invariant[1] forall k int :: 0 <= k && k < idx$1 ==> path.Headers[k].headerRE != nil
+  invariant[1] compiled-headers-stay-compiled: forall h *Header :: old(h.headerRE) != nil ==> h.headerRE != nil
 
 func newMuxRule(parentIPFilters *ipfilter.IPFilters, rule *Rule, paths []*MuxPath) (mr *muxRule)
   flag allocates
@@ -272,7 +275,7 @@ func newMuxRule(parentIPFilters *ipfilter.IPFilters, rule *Rule, paths []*MuxPat
 
 // the specification of the route table built from a spec: one rule object per spec rule, one path
 // object per spec path, each path's cached-route chain = [server filter, rule filter, path filter]
-pred ruleBuilt(r *muxRule, sr *Rule, sv *ipfilter.Spec) := r != nil && allocated(r) && allocated(ref(r.paths)) && (r.ipFilter != nil ==> allocated(r.ipFilter)) && r.host == sr.Host && len(r.paths) == len(sr.Paths) && ((sr.IPFilter == nil) <==> (r.ipFilter == nil)) && (r.ipFilter != nil ==> r.ipFilter.spec == sr.IPFilter) && (forall j int :: 0 <= j && j < len(sr.Paths) ==> r.paths[j] != nil && allocated(r.paths[j]) && chainAllocated(r.paths[j].ipFilterChain) && (r.paths[j].ipFilterChain != nil ==> ipfilter.wfFilters(r.paths[j].ipFilterChain)) && (r.paths[j].ipFilter != nil ==> allocated(r.paths[j].ipFilter)) && r.paths[j].backend == sr.Paths[j].Backend && r.paths[j].path == sr.Paths[j].Path && r.paths[j].pathPrefix == sr.Paths[j].PathPrefix && ((sr.Paths[j].IPFilter == nil) <==> (r.paths[j].ipFilter == nil)) && (r.paths[j].ipFilter != nil ==> r.paths[j].ipFilter.spec == sr.Paths[j].IPFilter) && pathChainOK(r.paths[j].ipFilterChain, sv, sr.IPFilter, sr.Paths[j].IPFilter))
+pred ruleBuilt(r *muxRule, sr *Rule, sv *ipfilter.Spec) := r != nil && (r.ipFilter != nil ==> ipfilter.wfFilter(r.ipFilter)) && (forall j int :: 0 <= j && j < len(sr.Paths) ==> wfPath(r.paths[j])) && allocated(r) && allocated(ref(r.paths)) && (r.ipFilter != nil ==> allocated(r.ipFilter)) && r.host == sr.Host && len(r.paths) == len(sr.Paths) && ((sr.IPFilter == nil) <==> (r.ipFilter == nil)) && (r.ipFilter != nil ==> r.ipFilter.spec == sr.IPFilter) && (forall j int :: 0 <= j && j < len(sr.Paths) ==> r.paths[j] != nil && allocated(r.paths[j]) && chainAllocated(r.paths[j].ipFilterChain) && (r.paths[j].ipFilterChain != nil ==> ipfilter.wfFilters(r.paths[j].ipFilterChain)) && (r.paths[j].ipFilter != nil ==> allocated(r.paths[j].ipFilter)) && r.paths[j].backend == sr.Paths[j].Backend && r.paths[j].path == sr.Paths[j].Path && r.paths[j].pathPrefix == sr.Paths[j].PathPrefix && ((sr.Paths[j].IPFilter == nil) <==> (r.paths[j].ipFilter == nil)) && (r.paths[j].ipFilter != nil ==> r.paths[j].ipFilter.spec == sr.Paths[j].IPFilter) && pathChainOK(r.paths[j].ipFilterChain, sv, sr.IPFilter, sr.Paths[j].IPFilter))
 pred specWF(s *Spec) := s != nil && (forall i int :: 0 <= i && i < len(s.Rules) ==> s.Rules[i] != nil && (forall j int :: 0 <= j && j < len(s.Rules[i].Paths) ==> s.Rules[i].Paths[j] != nil && (forall k int :: 0 <= k && k < len(s.Rules[i].Paths[j].Headers) ==> s.Rules[i].Paths[j].Headers[k] != nil)))
 
 func (m *mux) reload(superSpec *supervisor.Spec, muxMapper context.MuxMapper)
@@ -284,6 +287,7 @@ func (m *mux) reload(superSpec *supervisor.Spec, muxMapper context.MuxMapper)
   ensures new-generation-is-a-fresh-instance: typeIs(m.inst.v, "*muxInstance") && fresh(ptr(ifaceVal(m.inst.v), "*muxInstance")) && ptr(ifaceVal(m.inst.v), "*muxInstance").spec == ptr(ifaceVal(superSpec.objectSpec), "*Spec") && ptr(ifaceVal(m.inst.v), "*muxInstance").superSpec == superSpec
   ensures route-cache-is-never-shared-between-generations: let ni = ptr(ifaceVal(m.inst.v), "*muxInstance") in (ni.cache == nil || fresh(ni.cache))
   ensures server-filter: let ni = ptr(ifaceVal(m.inst.v), "*muxInstance") in ((ni.spec.IPFilter == nil) <==> (ni.ipFilter == nil)) && (ni.ipFilter != nil ==> ni.ipFilter.spec == ni.spec.IPFilter)
+  ensures new-generation-is-well-formed-for-search: let ni = ptr(ifaceVal(m.inst.v), "*muxInstance") in wfMux(ni)
   ensures new-generation-has-an-empty-cache: let ni = ptr(ifaceVal(m.inst.v), "*muxInstance") in cacheInv(ni)
   ensures new-generation-chains-are-server-rule-path-filters: let ni = ptr(ifaceVal(m.inst.v), "*muxInstance") in chainsOK(ni)
   ensures route-table-built-from-the-spec: let ni = ptr(ifaceVal(m.inst.v), "*muxInstance") in (len(ni.rules) == len(ni.spec.Rules) && (forall i int :: 0 <= i && i < len(ni.spec.Rules) ==> ruleBuilt(ni.rules[i], ni.spec.Rules[i], ni.spec.IPFilter)))
@@ -294,6 +298,7 @@ func (m *mux) reload(superSpec *supervisor.Spec, muxMapper context.MuxMapper)
   invariant[2] server-chain: chainAllocated(inst.ipFilterChan) && chainLen(inst.ipFilterChan) == (spec.IPFilter != nil ? 1 : 0) && (inst.ipFilterChan != nil ==> ipfilter.wfFilters(inst.ipFilterChan) && full(inst.ipFilterChan) && specAt(inst.ipFilterChan, 0) == spec.IPFilter)
   invariant[2] rule-chain: chainAllocated(ruleIPFilterChain) && allocated(ref(paths)) && chainLen(ruleIPFilterChain) == chainLen(inst.ipFilterChan) + (specRule.IPFilter != nil ? 1 : 0) && (ruleIPFilterChain != nil ==> ipfilter.wfFilters(ruleIPFilterChain) && full(ruleIPFilterChain)) && (spec.IPFilter != nil ==> specAt(ruleIPFilterChain, 0) == spec.IPFilter) && (specRule.IPFilter != nil ==> specAt(ruleIPFilterChain, chainLen(ruleIPFilterChain) - 1) == specRule.IPFilter)
   invariant[2] built: forall k int :: 0 <= k && k < i ==> ruleBuilt(inst.rules[k], spec.Rules[k], spec.IPFilter)
+  invariant[2] paths-well-formed: forall q int :: 0 <= q && q < j ==> wfPath(paths[q])
   invariant[2] paths-built: forall q int :: 0 <= q && q < j ==> paths[q] != nil && allocated(paths[q]) && chainAllocated(paths[q].ipFilterChain) && (paths[q].ipFilterChain != nil ==> ipfilter.wfFilters(paths[q].ipFilterChain)) && (paths[q].ipFilter != nil ==> allocated(paths[q].ipFilter)) && paths[q].backend == specRule.Paths[q].Backend && paths[q].path == specRule.Paths[q].Path && paths[q].pathPrefix == specRule.Paths[q].PathPrefix && ((specRule.Paths[q].IPFilter == nil) <==> (paths[q].ipFilter == nil)) && (paths[q].ipFilter != nil ==> paths[q].ipFilter.spec == specRule.Paths[q].IPFilter) && pathChainOK(paths[q].ipFilterChain, spec.IPFilter, specRule.IPFilter, specRule.Paths[q].IPFilter)
   closure[1] ()
   end
